@@ -36,7 +36,7 @@ RULE = (
 CONTAINERS = ("bytes", "region_fn", "region_method", "wav_eager", "wav_lazy", "raw_eager_str", "raw_lazy_path",
               "raw_misleading_ext", "wav_misleading_ext", "buffer_source", "reader", "stdin", "stdin_pipe")
 MUST_HIT = ["container_" + c for c in CONTAINERS] + ["conflicting_alias", "max_read_mid_window", "short_alias",
-                                                       "threshold_zero"]
+                                                       "threshold_zero", "region_with_start_or_conflicting_format"]
 ASSUMPTIONS = ["split(bytes, long names) is the baseline, judged on its own by C05/C06"]
 BOUNDS = {"quick": dict(n=500, maxwin=24), "thorough": dict(n=5000, maxwin=80)}
 PAIRS = {"sr": "sampling_rate", "sw": "sample_width", "ch": "channels", "aw": "analysis_window",
@@ -211,7 +211,15 @@ def check_case(case, rec_):
         if cont == "bytes":
             inp = data
         elif cont in ("region_fn", "region_method"):
-            inp = auditok.AudioRegion(data, sr, sw, ch)
+            ro = case.get("region_opts") or {}
+            inp = auditok.AudioRegion(data, sr, sw, ch, ro["start"]) if ro.get("start") is not None else auditok.AudioRegion(data, sr, sw, ch)
+            # the region's own format governs whatever the call says
+            for name, wrong in (("sampling_rate", sr + 3), ("sample_width", {1: 2, 2: 4, 4: 1}[sw]), ("channels", ch + 1),
+                                ("sr", sr * 2), ("sw", {1: 4, 2: 1, 4: 2}[sw]), ("ch", ch + 2)):
+                if name in (ro.get("conflict") or []):
+                    kw[name] = wrong
+            if ro.get("start") or ro.get("conflict"):
+                classes.add("region_with_start_or_conflicting_format")
         elif cont in ("wav_eager", "wav_lazy"):
             inp = stem + ".wav"
             write_wav(inp, data, sr, sw, ch)
@@ -231,12 +239,12 @@ def check_case(case, rec_):
             with open(inp, "wb") as fp:
                 fp.write(data)
             paths.append(inp)
-            spell(kw, "fmt", "raw", sp.get("fmt", "long"), "wav")
+            spell(kw, "fmt", case.get("raw_spelling", "raw"), sp.get("fmt", "long"), "wav")
         elif cont == "wav_misleading_ext":
             inp = stem + ".raw"
             write_wav(inp, data, sr, sw, ch)
             paths.append(inp)
-            spell(kw, "fmt", "wav", sp.get("fmt", "long"), "raw")
+            spell(kw, "fmt", case.get("wav_spelling", "wav"), sp.get("fmt", "long"), "raw")
             kw["large_file"] = bool(case.get("lazy"))
         elif cont == "buffer_source":
             inp = BufferAudioSource(data, sr, sw, ch)
@@ -292,7 +300,7 @@ def explicit_cases():
 
 @st.composite
 def strategy(draw, maxwin):
-    c = draw(audio.audio_case(maxwin=maxwin, maxB=8))
+    c = draw(audio.audio_case(maxwin=maxwin, maxB=8, shapes=True))
     c["container"] = draw(st.sampled_from(CONTAINERS))
     names = draw(st.lists(st.sampled_from(sorted(PAIRS)), unique=True, max_size=5))
     c["spell"] = {n: draw(st.sampled_from(["short", "both", "long"])) for n in names}
@@ -300,10 +308,18 @@ def strategy(draw, maxwin):
         del c["spell"]["val"]
     N = len(c["audio"]["pat"]) * c["audio"]["B"] + c["audio"]["tail"][0]
     if draw(st.integers(0, 2)) == 0:
-        c["mr"] = [draw(st.integers(0, N + 3)), draw(st.sampled_from([0, 0.25, 0.75]))]
+        c["mr"] = [draw(st.integers(0, N + 3)), draw(st.sampled_from([0, 0.25, 0.5, 0.75]))]
     else:
         c["mr"] = None
     c["lazy"] = draw(st.booleans())
+    c["wav_spelling"] = draw(st.sampled_from(["wav", "wave", "WAV", "WAVE", "Wave", "Wav"]))
+    c["raw_spelling"] = draw(st.sampled_from(["raw", "RAW", "Raw"]))
+    if c["container"].startswith("region") and draw(st.booleans()):
+        c["region_opts"] = {
+            "start": draw(st.one_of(st.none(), st.sampled_from([0.0, 2.5, 0.1]))),
+            "conflict": draw(st.lists(st.sampled_from(["sampling_rate", "sample_width", "channels", "sr", "sw", "ch"]),
+                                      unique=True, max_size=3)),
+        }
     return c
 
 
